@@ -281,22 +281,37 @@ def clampi(x, lo, hi):
     return core.ite(x > hi, hi, x)
 
 
+def _norm1(x, L, default):
+    """normalise one slice bound into [0, L]; prefers simple terms (proved facts) over nested ite"""
+    if x is None:
+        return default
+    if _isinstance(x, SxInt) and x.z is None:
+        x = x.v
+    if _isinstance(x, builtins.int) and _isinstance(L, builtins.int):
+        if x < 0:
+            x = max(x + L, 0)
+        return min(x, L)
+    if _isinstance(x, builtins.int):
+        if x >= 0:
+            return x if x == 0 or _le(x, L) else (L if _le(L, x) else core.ite(x > L, L, x))
+        y = x + L
+        return y if _le(0, y) else (0 if _le(y, 0) else core.ite(y < 0, 0, y))
+    if _le(0, x):
+        return x if _le(x, L) else (L if _le(L, x) else core.ite(x > L, L, x))
+    if _le(x, -1):
+        y = x + L
+        return y if _le(0, y) else (0 if _le(y, 0) else core.ite(y < 0, 0, y))
+    x = core.ite(x < 0, x + L, x)
+    return clampi(x, 0, L)
+
+
 def _norm_bounds(L, a, b):
-    if a is None:
-        a = 0
-    else:
-        if _isinstance(a, SxInt) and a.z is None:
-            a = a.v
-        a = core.ite(a < 0, a + L, a)
-        a = clampi(a, 0, L)
-    if b is None:
-        b = L
-    else:
-        if _isinstance(b, SxInt) and b.z is None:
-            b = b.v
-        b = core.ite(b < 0, b + L, b)
-        b = clampi(b, 0, L)
-    b = core.ite(b < a, a, b)
+    a = _norm1(a, L, 0)
+    b = _norm1(b, L, L)
+    if _isinstance(a, builtins.int) and _isinstance(b, builtins.int):
+        return a, max(a, b)
+    if not _le(a, b):
+        b = a if _le(b, a) else core.ite(b < a, a, b)
     return a, b
 
 
@@ -569,6 +584,13 @@ def _opaque_eq(x, y, leq):
         z = tobool(leq)
         if not _isinstance(z, builtins.bool):
             e.add(z3.Implies(v, z))
+        # two empty byte strings are equal whatever they are made of
+        lx, ly = sx_len(x), sx_len(y)
+        both_empty = tobool(core.And(lx == 0, ly == 0))
+        if not _isinstance(both_empty, builtins.bool):
+            e.add(z3.Implies(both_empty, v))
+        elif both_empty:
+            e.add(v)
         cache[key] = v
     return SxBool(cache[key])
 
